@@ -21,14 +21,15 @@ def main(tier):
     }
     c.build('asan', ['c18'])
     c.build('plain', ['c18'])
-    c.deadline = time.time() + (150 if quick else 1700)  # exploration budget, counted after the (lock-serialised) builds
+    c.deadline = time.time() + (170 if quick else 1700)  # exploration budget, counted after the (lock-serialised) builds
     # (a) real allocator, ASan+UBSan
     c.run_family('asan', 'c18', 'graph', env=env, per_case_timeout=5)
     c.run_family('asan', 'c18', 'perm', env=env, chunk=1, per_case_timeout=600)
     # (c) histories: id operations interleaved with add/remove (explicit-state search, implementation = transition relation)
     os.environ['VERIF_TIER'] = tier  # xstate picks its depth bound from it; replays inherit it
-    c.run_family('asan', 'c18', 'ids3', env=env, per_case_timeout=1500, nsamples=1)
-    c.run_family('asan', 'c18', 'ids4', env=env, per_case_timeout=1500, nsamples=1)
+    c.run_family('asan', 'c18', 'ids3', env=env, per_case_timeout=3000, nsamples=1)
+    c.run_family('asan', 'c18', 'ids4', env=env, per_case_timeout=3000, nsamples=1)
+    c.run_family('asan', 'c18', 'life5', env=env, per_case_timeout=3000, nsamples=1)
     # (b) the enumerator against brute force, then the windows, then the binding grids
     c.run_family('plain', 'c18', 'selfcheck', env=env, chunk=1, per_case_timeout=300)
     c.run_family('plain', 'c18', 'window', env=env, chunk=1, per_case_timeout=900)
@@ -61,9 +62,10 @@ def main(tier):
                             '+ address pairs judged on the binding grids; transitions = queries executed on the real code; traces = query orders / witness scenarios executed on the real code',
     }
     return c.finish(
-        rule='history (ids3/ids4): breadth-first search over ALL API histories up to depth %s / %s on 3 / 4 variables (one per component) over the alphabet addEquivalence, addEquivalence with ids, removeEquivalence (unordered pairs), '
-             'removeAllEquivalences (each variable), set/remove mapping and connection id (every ordered pair: direct, indirect and unconnected), de-duplicated by the observable state plus the private id-map entries; '
-             'in every reached state both query functions (fresh analysis, all ordered pairs, 2x) and both id getters are judged; ' % (('6', '4') if quick else ('8', '5')) +
+        rule='history (ids3/ids4/life5): breadth-first search over ALL API histories up to depth %s / %s / %s on 3 / 4 / 5 variables (one per component) over the alphabet addEquivalence, addEquivalence with ids, removeEquivalence (unordered pairs), '
+             'removeAllEquivalences (each variable), set/remove mapping and connection id (every ordered pair: direct, indirect and unconnected) and DESTROY (variable removed from its component and its last reference dropped: it leaves the universe, '
+             'its neighbours keep an expired entry); life5 uses the lean alphabet (no 4-argument add, mapping id only, unordered pairs); states are de-duplicated by the observable state plus the private id-map entries and the RAW neighbour lists '
+             '(order and expired slots); in every reached state, over the live variables: neighbour lists = reference edges and symmetric, hasEquivalentVariable direct and indirect, areEquivalentVariables on two fresh analyses asked in opposite orders (2x), both id getters; ' % (('5', '4', '4') if quick else ('6', '5', '5')) +
              'graph: every (n <= %s variables, 2-3 components, flat/chain hierarchy (n = 5: flat only), every assignment of variables to components, every edge set) is one case by construction; every case is asked '
              'all ordered pairs incl. (v,v), 3x each, in lexicographic order (fresh analysis), reverse order (second fresh analysis) and with each pair first (post-analysis cache restored); '
              'perm: n <= 3, every permutation of the n*n ordered pairs; window: all 2S/16 sums of 16-byte-aligned addresses of an S = %s MiB window are enumerated, T(s) sorted, every pair of sums '
